@@ -30,6 +30,8 @@ def random_case(rng, max_states=3, max_stack=2, max_trans=6, max_push=3, vcs=Non
     if c["vc"] == "inject":
         c["perm"] = rng.sample(range(4), 4)
         c["zperm"] = rng.sample(range(4), 4)
+    if rng.random() < 0.15:
+        c["form"] = "bulk"
     return c
 
 
@@ -85,6 +87,10 @@ def build(c):
     tr = list(c["trans"])
     if "shuffle" in c:
         random.Random(c["shuffle"]).shuffle(tr)
+    if c.get("form") == "bulk":
+        p.add_transitions([(sval(c, q), "epsilon" if a < 0 else INPUTS[a], zval(c, X), sval(c, r),
+                            [zval(c, y) for y in push]) for q, a, X, r, push in tr])
+        return p
     for q, a, X, r, push in tr:
         p.add_transition(sval(c, q), "epsilon" if a < 0 else INPUTS[a], zval(c, X), sval(c, r),
                          [zval(c, y) for y in push])
